@@ -17,15 +17,19 @@ import (
 )
 
 type parseModel struct {
-	p       *Pkg
-	fd      *ast.FuncDecl
-	g       *cfg.CFG
-	param   types.Object
-	objVar  types.Object
-	loop    ast.Stmt
-	setCall *ast.CallExpr
-	splitAs *ast.AssignStmt
-	splitFn *types.Func
+	p      *Pkg
+	fd     *ast.FuncDecl
+	g      *cfg.CFG
+	param  types.Object
+	objVar types.Object
+	loop   ast.Stmt
+	// the loop as it stands in the function's statement list (the labelled
+	// statement when the element loop carries a label, else loop itself)
+	loopTop   ast.Stmt
+	loopLabel string
+	setCall   *ast.CallExpr
+	splitAs   *ast.AssignStmt
+	splitFn   *types.Func
 	// an element split written inline (several consecutive statements that
 	// define and refine the two halves): the statements, the first being splitAs
 	splitRegion []ast.Stmt
@@ -285,10 +289,14 @@ func (p *Pkg) fillParseModel(m *parseModel) (kvmCall *ast.CallExpr) {
 		return true
 	})
 	for _, s := range fd.Body.List {
-		switch s.(type) {
+		inner, label := s, ""
+		if ls, ok := s.(*ast.LabeledStmt); ok {
+			inner, label = ls.Stmt, ls.Label.Name
+		}
+		switch inner.(type) {
 		case *ast.ForStmt, *ast.RangeStmt:
 			if m.loop == nil {
-				m.loop = s
+				m.loop, m.loopTop, m.loopLabel = inner, s, label
 			}
 		}
 	}
@@ -955,7 +963,7 @@ func (w *World) rulesParsePkg(p *Pkg, out *[]Obligation) {
 		okInit := true
 		n := 0
 		for _, s := range fd.Body.List {
-			if s == m.loop {
+			if s == m.loopTop {
 				break
 			}
 			as, ok := s.(*ast.AssignStmt)
@@ -1372,8 +1380,30 @@ func (w *World) rulesSplit(p *Pkg, m *parseModel, add func(ok bool, rule, inst s
 		}
 		return true
 	})
+	// the shape below (a counting loop over the input, N from the pool's make) is one
+	// way to write it; otherwise the splitter's contract is tabulated (splitsem.go), and
+	// a parser without any splitter is observed on over-long vectors (R01.scan)
+	semantic := func() bool {
+		if ss := p.splitSemantics(m); ss.decided {
+			add(ss.ok, "R01.split", "split", m.fd, ss.why)
+			return true
+		}
+		if sd, _, _ := p.splitDest(m); sd == nil && !p.usesSyncPool() {
+			if !p.scanDone {
+				w.rulesScan(p, func(bool, string, string, ast.Node, string) {})
+			}
+			if p.scanLongN > 0 {
+				okL := p.scanLongBad == ""
+				add(okL, "R01.split", "split", m.fd, map[bool]string{true: fmt.Sprintf("(bounded check) the parser cuts the vector as it goes, without a part splitter; %d probe vectors with more elements than metrics (a surplus element at every position) are refused, the elements before the surplus being handed on in order", p.scanLongN), false: p.scanLongBad}[okL])
+				return true
+			}
+		}
+		return false
+	}
 	if sfd == nil || N < 0 {
-		add(false, "R01.split", "split", m.fd, "cannot find the pooled slice length or the split function: undecided")
+		if !semantic() {
+			add(false, "R01.split", "split", m.fd, "cannot find the pooled slice length or the split function: undecided")
+		}
 		return
 	}
 	sp := paramObjs(info, sfd)
@@ -1530,6 +1560,9 @@ func (w *World) rulesSplit(p *Pkg, m *parseModel, add func(ok bool, rule, inst s
 		}
 	}
 	ok := K >= 0 && sigma-1 <= K && K <= N-1 && okRem
+	if !ok && (K < 0 || !okRem) && semantic() {
+		return // the counting loop was not recognised: decided on the splitter's contract
+	}
 	add(ok, "R01.split", "split", sfd, fmt.Sprintf("pool slice length N=%d, cutting stops at K=%d, order table has %d metrics: need Σ-1 <= K <= N-1 and the whole remainder stored in the last slot (found: remainder stored whole = %v)", N, K, sigma, okRem))
 }
 
@@ -1695,7 +1728,22 @@ func (p *Pkg) checkRegionCutBounded(m *parseModel) (ok bool, why string, decided
 	info := p.Info
 	defined := map[types.Object]bool{}
 	free := map[types.Object]bool{}
-	for _, st := range m.splitRegion {
+	// `abv, v := E, ""` followed by the refinement: the element is what the
+	// abbreviation starts from (E, e.g. the scanned part without its leading
+	// separator); the refinement is evaluated with abv bound to the element
+	region := m.splitRegion
+	seeded := ""
+	if as, ok := region[0].(*ast.AssignStmt); ok && as.Tok == token.DEFINE && len(as.Lhs) == 2 && len(as.Rhs) == 2 && len(region) > 1 &&
+		identObj(info, as.Lhs[0]) == m.abvObj && identObj(info, as.Lhs[1]) == m.valObj {
+		if c, isC := constString(info, as.Rhs[1]); isC && c == "" {
+			if _, plain := ast.Unparen(as.Rhs[0]).(*ast.Ident); !plain {
+				region = region[1:]
+				seeded = types.ExprString(as.Rhs[0])
+				defined[m.abvObj], defined[m.valObj] = true, true
+			}
+		}
+	}
+	for _, st := range region {
 		ast.Inspect(st, func(n ast.Node) bool {
 			id, isId := n.(*ast.Ident)
 			if !isId {
@@ -1713,7 +1761,7 @@ func (p *Pkg) checkRegionCutBounded(m *parseModel) (ok bool, why string, decided
 	// an integer the region reads as a position inside a string (a scanner fused
 	// with the split) cannot be bound to a meaningful value here
 	fused := false
-	for _, st := range m.splitRegion {
+	for _, st := range region {
 		ast.Inspect(st, func(n ast.Node) bool {
 			chk := func(e ast.Expr) {
 				if e == nil {
@@ -1773,14 +1821,17 @@ func (p *Pkg) checkRegionCutBounded(m *parseModel) (ok bool, why string, decided
 				return false, "", false
 			}
 		}
-		ct, _, err := ce.execBlock(m.splitRegion)
+		if seeded != "" {
+			ce.vars[m.abvObj], ce.vars[m.valObj] = vStr(s), vStr("")
+		}
+		ct, _, err := ce.execBlock(region)
 		if err != nil {
 			if pe, isPanic := err.(*panicked); isPanic {
 				return false, fmt.Sprintf("the split of %q panics: %s", s, pe.msg), true
 			}
 			return false, "", false
 		}
-		if ct == cReturn || ct == cBreak || ct == cContinue {
+		if ct != cNext {
 			return false, "", false
 		}
 		a, v := ce.vars[m.abvObj], ce.vars[m.valObj]
@@ -1811,6 +1862,9 @@ func (p *Pkg) checkRegionCutBounded(m *parseModel) (ok bool, why string, decided
 	ok, why, decided = rec()
 	if ok && decided {
 		why = fmt.Sprintf("(bounded check) the inline split yields (before, after) the first ':' for each of the %d strings of length ≤ 6 over {a, b, ':', '/'}", n)
+		if seeded != "" {
+			why += " (the element being the expression the abbreviation starts from, " + seeded + ")"
+		}
 	}
 	return ok, why, decided
 }
